@@ -5,6 +5,7 @@ bitproto.parser
 Grammar parser for bitproto.
 """
 
+import errno
 import os
 from contextlib import contextmanager
 from typing import Iterator, List, Optional, Tuple, Type as T, cast
@@ -300,6 +301,13 @@ class Parser:
         # Get filepath to import.
         importing_path = p[len(p) - 2]
         filepath = self._get_child_filepath(importing_path)
+
+        # A path the operating system cannot even look up (e.g. one containing
+        # a null character) is a file that doesn't exist.
+        if not os.path.exists(filepath):
+            raise FileNotFoundError(
+                errno.ENOENT, os.strerror(errno.ENOENT), importing_path
+            )
 
         # Check if this filepath already in parsing.
         if self._check_parsing_file(filepath):
